@@ -7,6 +7,7 @@ import (
 	"crypto/rsa"
 	"crypto/sha256"
 	"crypto/sha512"
+	"fmt"
 
 	hpke "github.com/cisco/go-hpke"
 	"github.com/cloudflare/circl/blindsign/blindrsa"
@@ -118,8 +119,14 @@ func (s RateLimitedTokenRequestState) FinalizeToken(encryptedtokenResponse []byt
 	// response_nonce = random(max(Nn, Nk)), taken from the encapsualted response
 	responseNonceLen := max(s.nameKey.suite.AEAD.KeySize(), s.nameKey.suite.AEAD.NonceSize())
 
+	if len(encryptedtokenResponse) < responseNonceLen {
+		return tokens.Token{}, fmt.Errorf("invalid token response encoding")
+	}
+
 	// salt = concat(enc, response_nonce)
-	salt := append(s.encapEnc, encryptedtokenResponse[:responseNonceLen]...)
+	salt := make([]byte, 0, len(s.encapEnc)+responseNonceLen)
+	salt = append(salt, s.encapEnc...)
+	salt = append(salt, encryptedtokenResponse[:responseNonceLen]...)
 
 	// prk = Extract(salt, secret)
 	prk := s.nameKey.suite.KDF.Extract(salt, s.encapSecret)
